@@ -1,11 +1,12 @@
 #!/bin/bash
-# adopt_seeded.sh <Cxx> <k> : confirms a sub-agent's seeded change in its scratch worktree (incl. the repository suite)
-# and copies it to /verif/seeded/<Cxx>-<k>/ together with the confirmation line.
-P=$1; K=$2
-S=/tmp/seed/$P/_seeded/$K
-D=/verif/seeded/$P-$K
+# adopt_seeded.sh <Cxx> <k> [base dir of the sub-agents' worktrees] [number to store it under]
+# confirms a sub-agent's seeded change in its scratch worktree (incl. the repository suite) and copies it to
+# /verif/seeded/<Cxx>-<n>/ together with the confirmation line.
+P=$1; K=$2; BASE=${3:-/tmp/seed}; N=${4:-$K}
+S=$BASE/$P/_seeded/$K
+D=/verif/seeded/$P-$N
 mkdir -p "$D"
-cp "$S/patch.diff" "$S/demo_test.go" "$D/" 
+cp "$S/patch.diff" "$S/demo_test.go" "$D/"
 [ -f "$S/notes.md" ] && cp "$S/notes.md" "$D/notes.md"
-/verif/tools/confirm_seeded.sh "$S" /tmp/seed/$P suite | sed "s#/tmp/seed/$P/_seeded/$K#$P-$K#" > "$D/confirm.txt"
+/verif/tools/confirm_seeded.sh "$S" $BASE/$P suite | sed "s#$S#$P-$N#" > "$D/confirm.txt"
 cat "$D/confirm.txt"
